@@ -38,29 +38,40 @@ def RegularL : List Particle → Bool
   | p :: ps => Regular p && RegularL ps
 end
 
-/-- `y` was decoded successfully by one of the declarations `es` carrying its local name -/
-def DecodedBy (m : Mode) (es : List (QName × Ty)) (y : Node) : Prop :=
-  ∃ q ty g a r, (q, ty) ∈ es ∧ y.tag.name = q.name ∧ parseNode g m a ty y = .ok r
+/-- `y` was decoded successfully, with a step budget below `G`, by one of the declarations `es`
+carrying its local name -/
+def DecodedBy (m : Mode) (G : Nat) (es : List (QName × Ty)) (y : Node) : Prop :=
+  ∃ q ty g a r, g < G ∧ (q, ty) ∈ es ∧ y.tag.name = q.name ∧ parseNode g m a ty y = .ok r
 
-theorem DecodedBy.mono {m : Mode} {es es' : List (QName × Ty)} {y : Node} (h : DecodedBy m es y)
-    (hs : ∀ e ∈ es, e ∈ es') : DecodedBy m es' y := by
-  obtain ⟨q, ty, g, a, r, hm, hn, hp⟩ := h
-  exact ⟨q, ty, g, a, r, hs _ hm, hn, hp⟩
+theorem DecodedBy.mono {m : Mode} {G : Nat} {es es' : List (QName × Ty)} {y : Node} (h : DecodedBy m G es y)
+    (hs : ∀ e ∈ es, e ∈ es') : DecodedBy m G es' y := by
+  obtain ⟨q, ty, g, a, r, hg, hm, hn, hp⟩ := h
+  exact ⟨q, ty, g, a, r, hg, hs _ hm, hn, hp⟩
+
+theorem DecodedBy.lift {m : Mode} {G G' : Nat} {es : List (QName × Ty)} {y : Node} (h : DecodedBy m G es y)
+    (hG : G ≤ G') : DecodedBy m G' es y := by
+  obtain ⟨q, ty, g, a, r, hg, hm, hn, hp⟩ := h
+  exact ⟨q, ty, g, a, r, Nat.lt_of_lt_of_le hg hG, hm, hn, hp⟩
 
 /-- `xs` = a prefix decoded by declarations of `es`, followed by `rest` -/
-def Taken (m : Mode) (es : List (QName × Ty)) (xs rest : List Node) : Prop :=
-  ∃ taken, xs = taken ++ rest ∧ ∀ y ∈ taken, DecodedBy m es y
+def Taken (m : Mode) (G : Nat) (es : List (QName × Ty)) (xs rest : List Node) : Prop :=
+  ∃ taken, xs = taken ++ rest ∧ ∀ y ∈ taken, DecodedBy m G es y
 
-theorem Taken.refl (m : Mode) (es : List (QName × Ty)) (xs : List Node) : Taken m es xs xs :=
+theorem Taken.refl (m : Mode) (G : Nat) (es : List (QName × Ty)) (xs : List Node) : Taken m G es xs xs :=
   ⟨[], rfl, by simp⟩
 
-theorem Taken.mono {m : Mode} {es es' : List (QName × Ty)} {xs rest : List Node} (h : Taken m es xs rest)
-    (hs : ∀ e ∈ es, e ∈ es') : Taken m es' xs rest := by
+theorem Taken.mono {m : Mode} {G : Nat} {es es' : List (QName × Ty)} {xs rest : List Node} (h : Taken m G es xs rest)
+    (hs : ∀ e ∈ es, e ∈ es') : Taken m G es' xs rest := by
   obtain ⟨t, ht, hall⟩ := h
   exact ⟨t, ht, fun y hy => (hall y hy).mono hs⟩
 
-theorem Taken.trans {m : Mode} {es : List (QName × Ty)} {xs mid rest : List Node}
-    (h1 : Taken m es xs mid) (h2 : Taken m es mid rest) : Taken m es xs rest := by
+theorem Taken.lift {m : Mode} {G G' : Nat} {es : List (QName × Ty)} {xs rest : List Node} (h : Taken m G es xs rest)
+    (hG : G ≤ G') : Taken m G' es xs rest := by
+  obtain ⟨t, ht, hall⟩ := h
+  exact ⟨t, ht, fun y hy => (hall y hy).lift hG⟩
+
+theorem Taken.trans {m : Mode} {G : Nat} {es : List (QName × Ty)} {xs mid rest : List Node}
+    (h1 : Taken m G es xs mid) (h2 : Taken m G es mid rest) : Taken m G es xs rest := by
   obtain ⟨t1, ht1, hall1⟩ := h1
   obtain ⟨t2, ht2, hall2⟩ := h2
   refine ⟨t1 ++ t2, by rw [ht1, ht2, List.append_assoc], ?_⟩
@@ -70,7 +81,7 @@ theorem Taken.trans {m : Mode} {es : List (QName × Ty)} {xs mid rest : List Nod
   · exact hall1 y hy
   · exact hall2 y hy
 
-theorem Taken.drop {m : Mode} {es : List (QName × Ty)} {xs rest : List Node} (h : Taken m es xs rest) :
+theorem Taken.drop {m : Mode} {G : Nat} {es : List (QName × Ty)} {xs rest : List Node} (h : Taken m G es xs rest) :
     xs.drop (xs.length - rest.length) = rest := by
   obtain ⟨t, ht, _⟩ := h
   subst ht
@@ -82,7 +93,7 @@ theorem mem_right {α : Type} {a b : List α} : ∀ e ∈ b, e ∈ a ++ b := fun
 /-- the element loop takes a prefix, every node of it decoded by this very declaration -/
 theorem acct_elemLoop (gas : Nat) (m : Mode) (q : QName) (min : Nat) (ty : Ty) (n k : Nat)
     (xs : List Node) (r : Out (List Item)) (h : elemLoop gas m q min ty n k xs = .ok r) :
-    Taken m [(q, ty)] xs r.rest := by
+    Taken m gas [(q, ty)] xs r.rest := by
   induction gas generalizing n k xs r with
   | zero => simp [elemLoop] at h
   | succ gas ih =>
@@ -105,43 +116,43 @@ theorem acct_elemLoop (gas : Nat) (m : Mode) (q : QName) (min : Nat) (ty : Ty) (
             intro y hy
             simp only [List.mem_cons] at hy
             rcases hy with rfl | hy
-            · exact ⟨q, ty, gas, true, it, by simp, by simpa using hname, hit⟩
-            · exact hall y hy
+            · exact ⟨q, ty, gas, true, it, Nat.lt_succ_self gas, by simp, by simpa using hname, hit⟩
+            · exact (hall y hy).lift (Nat.le_succ gas)
           · split at h
             · cases h
             · simp only [pure_eq_ok] at h; subst h; exact Taken.refl ..
 
 theorem acct_parseP_elem (gas : Nat) (m : Mode) (q : QName) (min : Nat) (max : Occ) (ty : Ty)
     (xs : List Node) (r : Out Inst) (h : parseP gas m (.elem q min max ty) xs = .ok r) :
-    Taken m [(q, ty)] xs r.rest := by
+    Taken m gas [(q, ty)] xs r.rest := by
   cases gas with
   | zero => simp [parseP] at h
   | succ gas =>
     simp only [parseP] at h
     obtain ⟨r', hr', h⟩ := bind_ok _ _ _ h
     simp only [pure_eq_ok] at h; subst h
-    exact acct_elemLoop gas m q min ty _ _ xs r' hr'
+    exact (acct_elemLoop gas m q min ty _ _ xs r' hr').lift (Nat.le_succ gas)
 
 /-- the statements proved together by induction on gas -/
 structure Acct (gas : Nat) : Prop where
-  parseP : ∀ m p xs r, Regular p = true → parseP gas m p xs = .ok r → Taken m (levelElems p) xs r.rest
+  parseP : ∀ m p xs r, Regular p = true → parseP gas m p xs = .ok r → Taken m gas (levelElems p) xs r.rest
   seqLoop : ∀ m ps min n d xs r, RegularL ps = true → seqLoop gas m ps min n d xs = .ok r →
-      Taken m (levelElemsL ps) xs r.rest
+      Taken m gas (levelElemsL ps) xs r.rest
   seqRound : ∀ m ps e sl xs r, RegularL ps = true → seqRound gas m ps e sl xs = .ok r →
-      Taken m (levelElemsL ps) xs r.rest
+      Taken m gas (levelElemsL ps) xs r.rest
   choiceLoop : ∀ m ps n xs r, RegularL ps = true → choiceLoop gas m ps n xs = .ok r →
-      Taken m (levelElemsL ps) xs r.rest
+      Taken m gas (levelElemsL ps) xs r.rest
   choiceOptions : ∀ m ps i xs r, RegularL ps = true → choiceOptions gas m ps i xs = .ok r →
-      ∀ j inst c, r.val = some (j, inst, c) → Taken m (levelElemsL ps) xs (xs.drop c)
+      ∀ j inst c, r.val = some (j, inst, c) → Taken m gas (levelElemsL ps) xs (xs.drop c)
   groupLoop : ∀ m p n xs r, Regular p = true → groupLoop gas m p n xs = .ok r →
-      Taken m (levelElems p) xs r.rest
+      Taken m gas (levelElems p) xs r.rest
 
 theorem acct_zero : Acct 0 := by
   constructor <;> intros <;> simp_all [parseP, seqLoop, seqRound, choiceLoop, choiceOptions, groupLoop]
 
 theorem acct_step_seqRound (gas : Nat) (ih : Acct gas) :
     ∀ m ps e sl xs r, RegularL ps = true → seqRound (gas + 1) m ps e sl xs = .ok r →
-      Taken m (levelElemsL ps) xs r.rest := by
+      Taken m (gas + 1) (levelElemsL ps) xs r.rest := by
   intro m ps e sl xs r hreg h
   cases ps with
   | nil => simp only [seqRound, pure_eq_ok] at h; subst h; exact Taken.refl ..
@@ -159,21 +170,21 @@ theorem acct_step_seqRound (gas : Nat) (ih : Acct gas) :
             · simp only [pure_eq_ok] at h; subst h; exact Taken.refl ..
             · obtain ⟨r', hr', h⟩ := bind_ok _ _ _ h
               simp only [pure_eq_ok] at h; subst h
-              exact (ih.seqRound _ _ _ _ _ r' hreg.2 hr').mono mem_right
+              exact ((ih.seqRound _ _ _ _ _ r' hreg.2 hr').lift (Nat.le_succ gas)).mono mem_right
     · cases h
     · rename_i r0 hr0
-      have h0 := (ih.parseP _ _ _ _ hreg.1 hr0).mono (es' := levelElemsL (p :: ps)) mem_left
+      have h0 := ((ih.parseP _ _ _ _ hreg.1 hr0).lift (Nat.le_succ gas)).mono (es' := levelElemsL (p :: ps)) mem_left
       split at h
       · rename_i hemp
         simp only [pure_eq_ok] at h; subst h
         simpa [List.isEmpty_iff.mp hemp] using h0
       · obtain ⟨more, hm, h⟩ := bind_ok _ _ _ h
         simp only [pure_eq_ok] at h; subst h
-        exact h0.trans ((ih.seqRound _ _ _ _ _ more hreg.2 hm).mono mem_right)
+        exact h0.trans (((ih.seqRound _ _ _ _ _ more hreg.2 hm).lift (Nat.le_succ gas)).mono mem_right)
 
 theorem acct_step_seqLoop (gas : Nat) (ih : Acct gas) :
     ∀ m ps min n d xs r, RegularL ps = true → seqLoop (gas + 1) m ps min n d xs = .ok r →
-      Taken m (levelElemsL ps) xs r.rest := by
+      Taken m (gas + 1) (levelElemsL ps) xs r.rest := by
   intro m ps min n d xs r hreg h
   cases n with
   | zero => simp only [seqLoop, pure_eq_ok] at h; subst h; exact Taken.refl ..
@@ -183,18 +194,18 @@ theorem acct_step_seqLoop (gas : Nat) (ih : Acct gas) :
     | cons x xs =>
       simp only [seqLoop] at h
       obtain ⟨r0, hr0, h⟩ := bind_ok _ _ _ h
-      have h0 := ih.seqRound _ _ _ _ _ _ hreg hr0
+      have h0 := (ih.seqRound _ _ _ _ _ _ hreg hr0).lift (Nat.le_succ gas)
       split at h
       · simp only [pure_eq_ok] at h; subst h; exact Taken.refl ..
       · split at h
         · simp only [pure_eq_ok] at h; subst h; exact h0
         · obtain ⟨more, hm, h⟩ := bind_ok _ _ _ h
           simp only [pure_eq_ok] at h; subst h
-          exact h0.trans (ih.seqLoop _ _ _ _ _ _ more hreg hm)
+          exact h0.trans ((ih.seqLoop _ _ _ _ _ _ more hreg hm).lift (Nat.le_succ gas))
 
 theorem acct_step_choiceOptions (gas : Nat) (ih : Acct gas) :
     ∀ m ps i xs r, RegularL ps = true → choiceOptions (gas + 1) m ps i xs = .ok r →
-      ∀ j inst c, r.val = some (j, inst, c) → Taken m (levelElemsL ps) xs (xs.drop c) := by
+      ∀ j inst c, r.val = some (j, inst, c) → Taken m (gas + 1) (levelElemsL ps) xs (xs.drop c) := by
   intro m ps i xs r hreg h
   cases ps with
   | nil => simp only [choiceOptions, pure_eq_ok] at h; subst h; intro j inst c hc; cases hc
@@ -205,15 +216,15 @@ theorem acct_step_choiceOptions (gas : Nat) (ih : Acct gas) :
     · obtain ⟨r', hr', h⟩ := bind_ok _ _ _ h
       simp only [pure_eq_ok] at h; subst h
       intro j inst c hc
-      exact (ih.choiceOptions _ _ _ _ _ hreg.2 hr' j inst c hc).mono mem_right
+      exact ((ih.choiceOptions _ _ _ _ _ hreg.2 hr' j inst c hc).lift (Nat.le_succ gas)).mono mem_right
     · cases h
     · rename_i r0 hr0
       obtain ⟨others, ho, h⟩ := bind_ok _ _ _ h
       simp only [pure_eq_ok] at h; subst h
-      have h0 := (ih.parseP _ _ _ _ hreg.1 hr0).mono (es' := levelElemsL (p :: ps)) mem_left
-      have hmine : Taken m (levelElemsL (p :: ps)) xs (xs.drop (xs.length - r0.rest.length)) := by
+      have h0 := ((ih.parseP _ _ _ _ hreg.1 hr0).lift (Nat.le_succ gas)).mono (es' := levelElemsL (p :: ps)) mem_left
+      have hmine : Taken m (gas + 1) (levelElemsL (p :: ps)) xs (xs.drop (xs.length - r0.rest.length)) := by
         rw [h0.drop]; exact h0
-      have hoth := ih.choiceOptions _ _ _ _ _ hreg.2 ho
+      have hoth := fun j inst c hc => (ih.choiceOptions _ _ _ _ _ hreg.2 ho j inst c hc).lift (Nat.le_succ gas)
       intro j inst c hc
       simp only at hc
       split at hc
@@ -233,7 +244,7 @@ theorem acct_step_choiceOptions (gas : Nat) (ih : Acct gas) :
 
 theorem acct_step_choiceLoop (gas : Nat) (ih : Acct gas) :
     ∀ m ps n xs r, RegularL ps = true → choiceLoop (gas + 1) m ps n xs = .ok r →
-      Taken m (levelElemsL ps) xs r.rest := by
+      Taken m (gas + 1) (levelElemsL ps) xs r.rest := by
   intro m ps n xs r hreg h
   cases n with
   | zero => simp only [choiceLoop, pure_eq_ok] at h; subst h; exact Taken.refl ..
@@ -243,32 +254,32 @@ theorem acct_step_choiceLoop (gas : Nat) (ih : Acct gas) :
     | cons x xs =>
       simp only [choiceLoop] at h
       obtain ⟨opts, ho, h⟩ := bind_ok _ _ _ h
-      have hopt := ih.choiceOptions _ _ _ _ _ hreg ho
+      have hopt := fun j inst c hc => (ih.choiceOptions _ _ _ _ _ hreg ho j inst c hc).lift (Nat.le_succ gas)
       split at h
       · simp only [pure_eq_ok] at h; subst h; exact Taken.refl ..
       · rename_i i inst c hv
         obtain ⟨more, hm, h⟩ := bind_ok _ _ _ h
         simp only [pure_eq_ok] at h; subst h
-        exact (hopt _ _ _ hv).trans (ih.choiceLoop _ _ _ _ more hreg hm)
+        exact (hopt _ _ _ hv).trans ((ih.choiceLoop _ _ _ _ more hreg hm).lift (Nat.le_succ gas))
 
 theorem acct_step_groupLoop (gas : Nat) (ih : Acct gas) :
     ∀ m p n xs r, Regular p = true → groupLoop (gas + 1) m p n xs = .ok r →
-      Taken m (levelElems p) xs r.rest := by
+      Taken m (gas + 1) (levelElems p) xs r.rest := by
   intro m p n xs r hreg h
   cases n with
   | zero => simp only [groupLoop, pure_eq_ok] at h; subst h; exact Taken.refl ..
   | succ n =>
     simp only [groupLoop] at h
     obtain ⟨r0, hr0, h⟩ := bind_ok _ _ _ h
-    have h0 := ih.parseP _ _ _ _ hreg hr0
+    have h0 := (ih.parseP _ _ _ _ hreg hr0).lift (Nat.le_succ gas)
     split at h
     · simp only [pure_eq_ok] at h; subst h; exact h0
     · obtain ⟨more, hm, h⟩ := bind_ok _ _ _ h
       simp only [pure_eq_ok] at h; subst h
-      exact h0.trans (ih.groupLoop _ _ _ _ more hreg hm)
+      exact h0.trans ((ih.groupLoop _ _ _ _ more hreg hm).lift (Nat.le_succ gas))
 
 theorem acct_step_parseP (gas : Nat) (ih : Acct gas) :
-    ∀ m p xs r, Regular p = true → parseP (gas + 1) m p xs = .ok r → Taken m (levelElems p) xs r.rest := by
+    ∀ m p xs r, Regular p = true → parseP (gas + 1) m p xs = .ok r → Taken m (gas + 1) (levelElems p) xs r.rest := by
   intro m p xs r hreg h
   cases p with
   | elem q min max ty => simpa [levelElems] using acct_parseP_elem (gas + 1) m q min max ty xs r h
@@ -277,18 +288,18 @@ theorem acct_step_parseP (gas : Nat) (ih : Acct gas) :
     simp only [parseP] at h
     obtain ⟨r', hr', h⟩ := bind_ok _ _ _ h
     simp only [pure_eq_ok] at h; subst h
-    simpa [levelElems] using ih.seqLoop _ _ _ _ _ _ _ (by simpa [Regular] using hreg) hr'
+    simpa [levelElems] using (ih.seqLoop _ _ _ _ _ _ _ (by simpa [Regular] using hreg) hr').lift (Nat.le_succ gas)
   | choice ps min max =>
     simp only [parseP] at h
     obtain ⟨r', hr', h⟩ := bind_ok _ _ _ h
     simp only [pure_eq_ok] at h; subst h
-    simpa [levelElems] using ih.choiceLoop _ _ _ _ _ (by simpa [Regular] using hreg) hr'
+    simpa [levelElems] using (ih.choiceLoop _ _ _ _ _ (by simpa [Regular] using hreg) hr').lift (Nat.le_succ gas)
   | all ps co => simp [Regular] at hreg
   | group p min max =>
     simp only [parseP] at h
     obtain ⟨r', hr', h⟩ := bind_ok _ _ _ h
     simp only [pure_eq_ok] at h; subst h
-    simpa [levelElems] using ih.groupLoop _ _ _ _ _ (by simpa [Regular] using hreg) hr'
+    simpa [levelElems] using (ih.groupLoop _ _ _ _ _ (by simpa [Regular] using hreg) hr').lift (Nat.le_succ gas)
 
 /-- **Accounting**, every gas: what a wildcard-free content model removes from the deque is a prefix
 whose every node was decoded by a declaration of the model carrying the node's local name. -/
@@ -304,7 +315,7 @@ theorem acct : ∀ gas, Acct gas := by
 
 /-- members of an `xsd:all`: every node of the pool is decoded by a member or still in the queues -/
 theorem acct_allMembers (m : Mode) (ps : List Particle) : ∀ (gas : Nat) (pool : List Node) (r : Out (List Inst)),
-    allMembers gas m ps pool = .ok r → ∀ s ∈ pool, s ∈ r.rest ∨ DecodedBy m (levelElemsL ps) s := by
+    allMembers gas m ps pool = .ok r → ∀ s ∈ pool, s ∈ r.rest ∨ DecodedBy m gas (levelElemsL ps) s := by
   induction ps with
   | nil =>
     intro gas pool r h s hs
@@ -324,22 +335,22 @@ theorem acct_allMembers (m : Mode) (ps : List Particle) : ∀ (gas : Nat) (pool 
           simp only [pure_eq_ok] at h; subst h
           rcases ihp gas pool r' hr' s hs with h1 | h1
           · exact Or.inl h1
-          · exact Or.inr (h1.mono mem_right)
+          · exact Or.inr ((h1.lift (Nat.le_succ gas)).mono mem_right)
         · obtain ⟨mine, hmine, h⟩ := bind_ok _ _ _ h
           obtain ⟨r', hr', h⟩ := bind_ok _ _ _ h
           simp only [pure_eq_ok] at h; subst h
           obtain ⟨taken, ht, hall⟩ := acct_parseP_elem gas m q mn mx ty _ mine hmine
           have hnext : ∀ s', s' ∈ (pool.filter fun x => !(x.tag == q)) ++ mine.rest →
-              s' ∈ r'.rest ∨ DecodedBy m (levelElemsL (Particle.elem q mn mx ty :: ps)) s' := by
+              s' ∈ r'.rest ∨ DecodedBy m (gas + 1) (levelElemsL (Particle.elem q mn mx ty :: ps)) s' := by
             intro s' hs'
             rcases ihp gas _ r' hr' s' hs' with h1 | h1
             · exact Or.inl h1
-            · exact Or.inr (h1.mono mem_right)
+            · exact Or.inr ((h1.lift (Nat.le_succ gas)).mono mem_right)
           by_cases hq : (s.tag == q) = true
           · have hsub : s ∈ pool.filter fun x => x.tag == q := List.mem_filter.mpr ⟨hs, hq⟩
             rw [ht] at hsub
             rcases List.mem_append.mp hsub with h1 | h1
-            · exact Or.inr ((hall s h1).mono (by intro e he; simp only [levelElemsL, levelElems]; exact List.mem_append_left _ he))
+            · exact Or.inr (((hall s h1).lift (Nat.le_succ gas)).mono (by intro e he; simp only [levelElemsL, levelElems]; exact List.mem_append_left _ he))
             · exact hnext s (List.mem_append_right _ h1)
           · exact hnext s (List.mem_append_left _ (List.mem_filter.mpr ⟨hs, by simpa using hq⟩))
       all_goals
@@ -348,7 +359,7 @@ theorem acct_allMembers (m : Mode) (ps : List Particle) : ∀ (gas : Nat) (pool 
         simp only [pure_eq_ok] at h; subst h
         rcases ihp gas pool r' hr' s hs with h1 | h1
         · exact Or.inl h1
-        · exact Or.inr (h1.mono mem_right)
+        · exact Or.inr ((h1.lift (Nat.le_succ gas)).mono mem_right)
 
 /-- raw nodes an instance hands to the caller at this level -/
 def rawOfInst : Inst → List Node
@@ -359,7 +370,7 @@ def rawOfInst : Inst → List Node
 (`consume_other`, SOAP headers) — none is dropped -/
 theorem acct_parseP_all (gas : Nat) (m : Mode) (ps : List Particle) (co : Bool) (xs : List Node) (r : Out Inst)
     (h : parseP gas m (.all ps co) xs = .ok r) :
-    ∀ s ∈ xs, (if co then s ∈ rawOfInst r.val else s ∈ r.rest) ∨ DecodedBy m (levelElemsL ps) s := by
+    ∀ s ∈ xs, (if co then s ∈ rawOfInst r.val else s ∈ r.rest) ∨ DecodedBy m gas (levelElemsL ps) s := by
   intro s hs
   cases gas with
   | zero => simp [parseP] at h
@@ -367,7 +378,7 @@ theorem acct_parseP_all (gas : Nat) (m : Mode) (ps : List Particle) (co : Bool) 
     simp only [parseP] at h
     obtain ⟨r', hr', h⟩ := bind_ok _ _ _ h
     have hback : s ∈ (xs.filter fun x => !((memberTags ps).contains x.tag)) ++
-        byTag (tagsInOrder (xs.filter fun x => (memberTags ps).contains x.tag) []) r'.rest ∨ DecodedBy m (levelElemsL ps) s := by
+        byTag (tagsInOrder (xs.filter fun x => (memberTags ps).contains x.tag) []) r'.rest ∨ DecodedBy m (gas + 1) (levelElemsL ps) s := by
       by_cases ht : (memberTags ps).contains s.tag = true
       · have hmine : s ∈ xs.filter fun x => (memberTags ps).contains x.tag := List.mem_filter.mpr ⟨hs, ht⟩
         rcases acct_allMembers m ps gas _ r' hr' s hmine with h1 | h1
@@ -376,7 +387,7 @@ theorem acct_parseP_all (gas : Nat) (m : Mode) (ps : List Particle) (co : Bool) 
           rcases (tagsInOrder_spec _ []).2.2 s hmine with h2 | h2
           · simp at h2
           · exact h2
-        · exact Or.inr h1
+        · exact Or.inr (h1.lift (Nat.le_succ gas))
       · left
         exact List.mem_append_left _ (List.mem_filter.mpr ⟨hs, by simpa using ht⟩)
     split at h
